@@ -712,6 +712,23 @@ inline ResolvedPt resolvePt(const MeshSpec& s, const Built& B, const PtSpec& p)
       for (int d = 0; d < ndim; d++) t[(size_t)d] = idx[d] + p.t[(size_t)d];
     }
   }
+  if (type == 3 && B.nel > 0 && B.nap > 0)
+  {
+    // an apex of the mesh itself (also on the hull): it belongs to the mesh; its coordinates are exactly the stored ones
+    int a = p.el % B.nap;
+    int el = -1;
+    for (int e = 0; e < B.nel && el < 0; e++)
+      for (int c = 0; c < B.nc; c++)
+        if (B.elem[(size_t)(e * B.nc + c)] == a) { el = e; break; }
+    if (el >= 0)
+    {
+      r.inside = true;
+      r.el = el;
+      for (int j = 0; j < ndim; j++) r.x[(size_t)j] = B.apex[(size_t)(a * ndim + j)];
+      return r;
+    }
+    type = 0;
+  }
   if (type == 0 && B.nel > 0)
   {
     r.inside = true;
